@@ -9,6 +9,8 @@
 (*            - what the tool's own linter reads for the file, and content hashes     *)
 (*            of the file and of its .license sibling ("absent" if there is none)     *)
 (*   e.exit, e.treeUnchanged, e.sameAsPrev (same command line as the previous event)  *)
+(*   e.expect "usage" (the command line is a documented usage error), "fail" (no      *)
+(*            valid header can exist: the template loses the information), or "any"   *)
 (* R is outcome-conditional: every file is either COMPLETE (declares exactly what it  *)
 (* declared before plus the request) or UNTOUCHED; the exit status tells which.       *)
 EXTENDS Copyright, Json, IOUtils, TLCExt
@@ -21,11 +23,16 @@ ReqCopTexts(e) == {Text(e.req.cop[i]) : i \in 1..Len(e.req.cop)} \cup SeqSet(e.r
 HasInfo(d) == d.cop # <<>> \/ d.lic # <<>> \/ d.con # <<>>
 LegitSkip(e, f) == (e.req.skipExisting /\ HasInfo(f.pre)) \/ (e.req.skipUnrecognised /\ f.unrecognised)
 
+(* C09's wording for --merge-copyrights: the same holders remain, and every year     *)
+(* stated before (or requested) lies in a range the file still states for that holder *)
+MergeCovers(S, O) ==
+   /\ Holders(O) = Holders(S)
+   /\ \A h \in Holders(S) : \A y \in YearsOf(S, h) : \E n \in O : n.holder = h /\ n.y1 # 0 /\ n.y1 <= y /\ y <= n.y2
 CopComplete(e, f) ==
-   IF e.req.merge
+   IF e.req.merge /\ ~e.req.noReplace
    THEN /\ \A i \in 1..Len(f.post.notices) : f.post.notices[i].pfx # "?" \/ f.post.cop[i] \in SeqSet(f.pre.cop)
-        /\ MergeOK({n \in SeqSet(f.pre.notices) \cup SeqSet(e.req.cop) : n.pfx # "?"},
-                   {n \in SeqSet(f.post.notices) : n.pfx # "?"}) = ""
+        /\ MergeCovers({n \in SeqSet(f.pre.notices) \cup SeqSet(e.req.cop) : n.pfx # "?"},
+                       {n \in SeqSet(f.post.notices) : n.pfx # "?"})
    ELSE SeqSet(f.post.cop) = SeqSet(f.pre.cop) \cup ReqCopTexts(e)
 Complete(e, f) ==
    /\ CopComplete(e, f)
@@ -35,6 +42,11 @@ Complete(e, f) ==
 Dropped(e, f) == \/ ~(SeqSet(f.pre.lic) \subseteq SeqSet(f.post.lic))
                  \/ (~e.req.merge /\ ~(SeqSet(f.pre.cop) \subseteq SeqSet(f.post.cop)))
                  \/ (e.req.merge /\ ~({n.holder : n \in SeqSet(f.pre.notices)} \subseteq {n.holder : n \in SeqSet(f.post.notices)}))
+                 \/ (e.req.merge /\ ~e.req.noReplace /\
+                       LET S == {n \in SeqSet(f.pre.notices) : n.pfx # "?"}
+                           O == {n \in SeqSet(f.post.notices) : n.pfx # "?"}
+                       IN  \E h \in Holders(S) : \E y \in YearsOf(S, h) :        \* a year stated before is no longer covered
+                              ~\E n \in O : n.holder = h /\ n.y1 # 0 /\ n.y1 <= y /\ y <= n.y2)
                  \/ (e.req.rendersCon /\ ~(SeqSet(f.pre.con) \subseteq SeqSet(f.post.con)))
 
 FileVerdict(e, f) ==
@@ -52,6 +64,9 @@ Verdict(i) ==
    LET e == Tr[i] IN
    IF e.crash # "" THEN "crash"
    ELSE IF e.exit \notin {0, 1, 2} THEN "C11.undocumented-exit-status"
+   ELSE IF e.expect = "usage" /\ e.exit # 2 THEN "C11.usage-error-not-detected-before-processing"
+   ELSE IF e.expect = "fail" /\ (e.exit # 1 \/ \E f \in FilesOf(e) : ~Untouched(f))
+        THEN "C11.header-that-cannot-be-valid-was-not-refused"
    ELSE IF e.exit = 2
         THEN IF \A f \in FilesOf(e) : Untouched(f) /\ e.treeUnchanged THEN "" ELSE "C11.usage-error-after-touching-files"
    ELSE IF FirstBad(e) # "" THEN FirstBad(e)
@@ -63,7 +78,7 @@ Verdict(i) ==
         THEN "C11.file-that-can-be-annotated-was-not-processed"
    ELSE IF e.sameAsPrev /\ ~e.req.noReplace /\ Prev(i).exit = 0 /\ e.exit = 0 /\ \E f \in FilesOf(e) : ~Untouched(f)
         THEN "C10.identical-rerun-changed-the-file"
-   ELSE IF e.exit = 0 /\ \E f \in FilesOf(e) : f.post.blocks > 1 /\ f.pre.blocks <= 1 /\ ~e.req.noReplace
+   ELSE IF e.sameAsPrev /\ e.exit = 0 /\ \E f \in FilesOf(e) : f.post.blocks > 1 /\ f.pre.blocks <= 1 /\ ~e.req.noReplace
         THEN "C10.second-header-block-stacked"
    ELSE ""
 
